@@ -690,6 +690,44 @@ class TG:
             p.add(indent, "print \"@T \" + typeof (%s)" % rv)
             p.add(indent, "print %s" % rv)
             return
+        if kind == "factory":
+            # an ESCAPING closure: the inner function is returned and called after its defining activation is
+            # gone, so every variable it uses must have been captured (exercises the capture analysis of each
+            # construct the statements are built from)
+            mk = self.fresh("mk")
+            a, b = self.fresh("pa"), self.fresh("pb")
+            rt = r.choice([INT, STR, BOOL, FLT])
+            p.add(indent, "%s = fn(%s: int) -> (fn(int) -> %s) {" % (mk, a, tname(rt)))
+            self.ctx.append("factory")
+            self.scopes.append({a: INT})
+            self.local_start.append(len(self.scopes) - 1)
+            self.pool(indent + 1, [INT, STR, r.choice([FLT, BIG, BYT, BOOL]), LIST(INT), OPT(INT), MAP(STR, INT)] +
+                      [CLS(c) for c in list(self.classes)[:1]])
+            p.add(indent + 1, "return fn(%s: int) -> %s {" % (b, tname(rt)))
+            self.ctx.append("escaped_closure")
+            self.scopes.append({b: INT})
+            self.local_start.append(len(self.scopes) - 1)
+            self.pool(indent + 2, [INT])
+            for _ in range(n + 2):
+                self.stmt(indent + 2, rt)
+            p.add(indent + 2, "return ", Site("return", rt, self.E(rt, 0), "escaped_closure"))
+            self.local_start.pop()
+            self.scopes.pop()
+            self.ctx.pop()
+            p.add(indent + 1, "}")
+            self.local_start.pop()
+            self.scopes.pop()
+            self.ctx.pop()
+            p.add(indent, "}")
+            c = self.fresh("cl")
+            p.add(indent, "%s = %s(" % (c, mk), Site("arg", INT, self.E(INT, 1), self.ctx[-1]), ")")
+            for _ in range(2):
+                rv = self.fresh("rv")
+                p.add(indent, "%s = %s(" % (rv, c), Site("arg", INT, self.E(INT, 1), self.ctx[-1]), ")")
+                self.declare(rv, rt)
+                p.add(indent, "print \"@T \" + typeof (%s)" % rv)
+                p.add(indent, "print %s" % rv)
+            return
         if kind in ("method", "constructor"):
             cn = self.fresh("C")
             f1 = self.fresh("cf")
@@ -772,7 +810,7 @@ class TG:
     def program(self, contexts=None):
         self.preamble()
         self.pool(0)
-        kinds = contexts or ["module", "function", "closure", "method", "constructor", "loop", "branch"]
+        kinds = contexts or ["module", "function", "closure", "method", "constructor", "loop", "branch", "factory", "factory"]
         for _ in range(self.r.randint(3, 6)):
             self.context_block(0, self.r.choice(kinds))
         self.p.add(0, 'print "@@END@@"')
